@@ -242,6 +242,8 @@ def gen_abf(r, k, T):
     same = r.random() < 0.5
     tags = ["abf", "samestep" if same else "lagged"]
     cfg = []
+    M = {"nd": nv, "lower": [], "width": [], "nx": [], "periodic": [], "P": [], "sub": [], "other": [False] * nv,
+         "same": same, "update": True, "cap": False, "maxf": [0.0] * nv, "hk": None, "hc": 0.0}
     for i in range(nv):
         w = r.choice([0.5, 1.0, 2.0])
         nx = r.randint(2, 5)
@@ -256,26 +258,37 @@ def gen_abf(r, k, T):
             c0 = 0.0
             lo = V.dyadic(r, -3, 1, bits=2)
         ex = []
-        if r.random() < 0.3:
+        sub = r.random() < 0.3
+        if sub:
             ex.append("subtractAppliedForce on")
             tags.append("subtract")
         cfg += cv_block(i, width=w, lower=lo, upper=lo + nx * w, period=P, wrap=c0, extra=ex,
                         cvc_extra=["oneSiteTotalForce on"])
+        M["lower"].append(lo); M["width"].append(w); M["nx"].append(nx); M["periodic"].append(per)
+        M["P"].append(P if per else 0.0); M["sub"].append(sub)
     full = r.randint(1, 5)
+    mn = r.randint(0, full - 1) if full > 1 else 0
+    M["full"], M["min"] = full, mn
     B = ["abf {", "  name a", "  colvars " + " ".join("v%d" % i for i in range(nv)),
-         "  fullSamples %d" % full, "  minSamples %d" % (r.randint(0, full - 1) if full > 1 else 0)]
+         "  fullSamples %d" % full, "  minSamples %d" % mn]
     if r.random() < 0.2:
-        B.append("  maxForce " + vec([r.choice([0.5, 1.0, 2.0]) for _ in range(nv)]))
+        mf = [r.choice([0.5, 1.0, 2.0]) for _ in range(nv)]
+        B.append("  maxForce " + vec(mf))
+        M["cap"], M["maxf"] = True, mf
     if r.random() < 0.15:
         B.append("  updateBias off")
+        M["update"] = False
     B.append("}")
     if r.random() < 0.5:
-        B += ["harmonic {", "  name r", "  colvars v0", "  forceConstant %r" % r.choice([0.5, 1.0, 2.0]),
-              "  centers %r" % V.dyadic(r, -2, 2, bits=2), "}"]
+        hk = r.choice([0.5, 1.0, 2.0])
+        hc = V.dyadic(r, -2, 2, bits=2)
+        B += ["harmonic {", "  name r", "  colvars v0", "  forceConstant %r" % hk, "  centers %r" % hc, "}"]
         tags.append("+harmonic")
-    return {"fam": "abf", "tags": tags, "natoms": nv, "setup": ["samestep %d" % (1 if same else 0), "includecv 1"],
+        M["other"][0] = True
+        M["hk"], M["hc"] = hk, hc
+    return {"fam": "abf", "tags": tags, "sigtags": [], "natoms": nv, "setup": ["samestep %d" % (1 if same else 0), "includecv 1"],
             "config": cfg + B, "it0": r.choice([0, 0, 4]),
-            "pos": walk(r, T, nv, lo=-3.5, hi=3.5, bits=3), "ef": forces(r, T, nv)}
+            "pos": walk(r, T, nv, lo=-3.5, hi=3.5, bits=3), "ef": forces(r, T, nv), "model": M}
 
 
 # ------------------------------------------------------------------------------------------------ metadynamics
